@@ -559,6 +559,42 @@ class SubscriptChecker:
             if isinstance(c, ast.expr):
                 self.check_expr(c, env, facts)
 
+    def _filled_type(self, name, t):
+        """`name: dict[str, C] = {}` (or `list[C] = []`) that is only ever filled with dict displays: the keys present in every
+        one of those displays are known to be present in its elements (what a comprehension over the same display gives)."""
+        et = t.v if isinstance(t, D) else (t.e if isinstance(t, L) else None)
+        if not isinstance(et, M):
+            return t
+        common = None
+        for n in ast.walk(self.func.node):
+            vals = []
+            if isinstance(n, ast.Assign):
+                for tg in n.targets:
+                    if isinstance(tg, ast.Subscript) and isinstance(tg.value, ast.Name) and tg.value.id == name:
+                        vals.append(n.value)
+                    elif isinstance(tg, ast.Name) and tg.id == name:
+                        return t
+            elif isinstance(n, ast.Call) and isinstance(n.func, ast.Attribute) and isinstance(n.func.value, ast.Name) \
+                    and n.func.value.id == name:
+                if n.func.attr in ('append', 'add') and len(n.args) == 1:
+                    vals.append(n.args[0])
+                elif n.func.attr == 'setdefault' and len(n.args) == 2:
+                    vals.append(n.args[1])
+                elif n.func.attr in ('update', 'extend', 'insert', '__setitem__'):
+                    return t
+            elif isinstance(n, ast.Call) and any(isinstance(a, ast.Name) and a.id == name for a in n.args) \
+                    and not (isinstance(n.func, ast.Name) and n.func.id in ('list', 'len', 'sorted', 'tuple', 'iter', 'enumerate')):
+                return t    # handed to a callee that may fill it
+            for v in vals:
+                if not (isinstance(v, ast.Dict) and v.keys and all(isinstance(k, ast.Constant) for k in v.keys)):
+                    return t
+                ks = {k.value for k in v.keys}
+                common = ks if common is None else common & ks
+        if not common:
+            return t
+        et2 = M(et.name, known=set(common) | set(et.known or ()))
+        return D(t.k, et2) if isinstance(t, D) else L(et2)
+
     def block(self, stmts, env, facts):
         ty = self.typer
         mdl = self.model
@@ -588,6 +624,9 @@ class SubscriptChecker:
                         t = vt
                     elif isinstance(vt, Lit) or (isinstance(vt, D) and isinstance(vt.v, Lit)):
                         t = vt
+                    elif isinstance(s.target, ast.Name) and isinstance(s.value, (ast.Dict, ast.List)) \
+                            and not (s.value.keys if isinstance(s.value, ast.Dict) else s.value.elts):
+                        t = self._filled_type(s.target.id, t)
                 if isinstance(s.target, ast.Name):
                     env[s.target.id] = t
             elif isinstance(s, ast.AugAssign):
